@@ -30,6 +30,8 @@ use rpki::rrdp::{
     UpdateElement, UriAndHash, WithdrawElement,
 };
 use rpki::uri;
+use rpki::xml::decode as xd;
+use rpki::xml::encode as xe;
 use rpki_verif::engine::enumerate::{par_for, seq_at, seq_count};
 use rpki_verif::engine::report::repo_dir;
 use rpki_verif::{guard, hex, trunc, Ctx};
@@ -323,7 +325,7 @@ fn space_deltas(ctx: &Ctx) {
     for l in 0..=5usize { limits.push(Some(l)) }
     if ctx.tier.is_thorough() { limits.extend([Some(6), Some(7), Some(usize::MAX)]) }
     let sp = ctx.space("deltas.sort_and_verify",
-        "every sequence (all orders of every multiset) of up to N serials from {0,1,2,3,5,MAX-1,MAX} x every limit: return value and retained list of the real sort_and_verify_deltas vs. the reference (sort, keep newest `limit`, consecutive in Z); non-trivial = cases in which at least two deltas are retained (verdict not vacuous), measured on the model");
+        "every sequence (all orders of every multiset) of up to N serials from {0,1,2,3,5,MAX-1,MAX} x every limit: return value and retained list of the real sort_and_verify_deltas vs. the reference (sort, keep newest `limit`, consecutive in Z); per sequence also sort_deltas / reverse_sort_deltas (sorted / reverse-sorted multiset of the same entries, delta_status unchanged); non-trivial = cases in which at least two deltas are retained (verdict not vacuous), measured on the model");
     let total = seq_count(7, max_len);
     let limits_ref = &limits;
     let fails = Fails::new();
@@ -359,7 +361,28 @@ fn space_deltas(ctx: &Ctx) {
                 }
             }
         }
-        sp.evals(limits_ref.len() as u64);
+        // sort_deltas / reverse_sort_deltas on the same sequence: the sorted / reverse-sorted
+        // multiset (serial and URI of every entry kept), delta_status unchanged
+        for (k, name) in ["sort_deltas", "reverse_sort_deltas"].into_iter().enumerate() {
+            let mut want = serials.clone();
+            want.sort();
+            if k == 1 { want.reverse() }
+            *oc.entry(if want == serials { "sort-keeps-order" } else { "sort-reorders" }).or_insert(0) += 1;
+            fails.check(idx * 16 + 14 + k as u64, "C09.deltas.sort", || format!("{name} on serials={}", show_serials(&serials)), || {
+                let mut nf = mk_notification(&serials);
+                let entries = |nf: &NotificationFile| nf.deltas().iter().map(|d| (d.serial(), d.uri().as_str().to_string())).collect::<Vec<_>>();
+                let mut before = entries(&nf);
+                if k == 1 { nf.reverse_sort_deltas() } else { nf.sort_deltas() }
+                if nf.delta_status().is_err() { return Err("delta_status turned into an error".into()) }
+                let mut after = entries(&nf);
+                let got: Vec<u64> = after.iter().map(|e| e.0).collect();
+                if got != want { return Err(format!("order afterwards {}, expected {}", show_serials(&got), show_serials(&want))) }
+                before.sort(); after.sort();
+                if before != after { return Err("the entries afterwards are not the entries before".into()) }
+                Ok(())
+            });
+        }
+        sp.evals(limits_ref.len() as u64 + 2);
         sp.nontrivial(nt);
         sp.merge_outcomes(&oc);
     });
@@ -375,6 +398,9 @@ fn space_deltas(ctx: &Ctx) {
                 let mut p = NotificationFile::parse_limited(xml.as_slice(), 2).map_err(|e| e.to_string())?;
                 if p.delta_status().is_ok() { return Err("delta list of 3 not reported oversized at limit 2".into()) }
                 if !p.sort_and_verify_deltas(limit) { return Err("no deltas retained but reported failure".into()) }
+                p.sort_deltas();
+                p.reverse_sort_deltas();
+                if p.delta_status().is_ok() || !p.deltas().is_empty() { return Err("sorting a dropped (oversized) delta list changed delta_status / deltas()".into()) }
                 Ok(())
             });
         }
@@ -472,6 +498,23 @@ fn roundtrip_notification(nf: &NotificationFile) -> Result<Vec<u8>, String> {
         }
     }
     if &back != nf { return Err("fields agree but `==` says unequal".into()) }
+    // into_uri() / into_pair() must agree with uri() / hash(), octet for octet, and with what was written
+    for (what, v) in [("written", nf), ("parsed", &back)] {
+        let mut refs: Vec<&UriAndHash> = vec![v.snapshot()];
+        for d in v.deltas() { refs.push(d) }
+        let mut orig: Vec<&UriAndHash> = vec![nf.snapshot()];
+        for d in nf.deltas() { orig.push(d) }
+        for (i, (r, o)) in refs.iter().zip(&orig).enumerate() {
+            let u = (*r).clone().into_uri();
+            let (pu, ph) = (*r).clone().into_pair();
+            if u.as_str() != r.uri().as_str() || pu.as_str() != r.uri().as_str() || ph != r.hash() {
+                return Err(format!("{what} entry #{i}: into_uri()={u} into_pair()=({pu},{ph}) but uri()={} hash()={}", r.uri(), r.hash()))
+            }
+            if u.as_str() != o.uri().as_str() || ph != o.hash() {
+                return Err(format!("{what} entry #{i}: into_uri()/into_pair() give ({u},{ph}), written ({},{})", o.uri(), o.hash()))
+            }
+        }
+    }
     Ok(xml)
 }
 
@@ -583,6 +626,67 @@ fn diff_seen(want: &[Seen], got: &[Seen]) -> Result<(), String> {
     Ok(())
 }
 
+/// What the by-reference accessors of the elements say.
+fn seen_by_ref(els: &[DeltaElement]) -> Vec<Seen> {
+    els.iter().map(|e| match e {
+        DeltaElement::Publish(p) => Seen::Publish { uri: p.uri().clone(), hash: None, data: p.data().to_vec() },
+        DeltaElement::Update(u) => Seen::Publish { uri: u.uri().clone(), hash: Some(*u.hash()), data: u.data().to_vec() },
+        DeltaElement::Withdraw(w) => Seen::Withdraw { uri: w.uri().clone(), hash: *w.hash() },
+    }).collect()
+}
+
+/// What `unpack()` of the elements says.
+fn seen_by_unpack(els: Vec<DeltaElement>) -> Vec<Seen> {
+    els.into_iter().map(|e| match e {
+        DeltaElement::Publish(p) => { let (uri, data) = p.unpack(); Seen::Publish { uri, hash: None, data: data.to_vec() } }
+        DeltaElement::Update(u) => { let (uri, hash, data) = u.unpack(); Seen::Publish { uri, hash: Some(hash), data: data.to_vec() } }
+        DeltaElement::Withdraw(w) => { let (uri, hash) = w.unpack(); Seen::Withdraw { uri, hash } }
+    }).collect()
+}
+
+/// URIs must come back octet for octet through the accessors (`==` on URIs
+/// ignores the case of scheme and host).
+fn same_uri_text(want: &[Seen], got: &[Seen], what: &str) -> Result<(), String> {
+    for (i, (w, g)) in want.iter().zip(got).enumerate() {
+        let (wu, gu) = match (w, g) {
+            (Seen::Publish { uri: a, .. }, Seen::Publish { uri: b, .. }) | (Seen::Withdraw { uri: a, .. }, Seen::Withdraw { uri: b, .. }) => (a, b),
+            _ => continue,
+        };
+        if wu.as_str() != gu.as_str() { return Err(format!("{what}: element #{i} uri text {} -> {}", wu.as_str(), gu.as_str())) }
+    }
+    Ok(())
+}
+
+/// `Hash::matches` against its definition (`== Hash::from_data`), on the
+/// object bytes that came back and on a one-octet extension of them; the
+/// hash of the written bytes must match the parsed bytes.
+fn hash_matches_sweep(want: &[Seen], got: &[Seen]) -> Result<(), String> {
+    for (i, (w, g)) in want.iter().zip(got).enumerate() {
+        if let (Seen::Publish { data: wd, hash: wh, .. }, Seen::Publish { data: gd, .. }) = (w, g) {
+            let h = Hash::from_data(wd);
+            let mut longer = gd.clone(); longer.push(0);
+            for (d, name) in [(gd, "parsed bytes"), (&longer, "parsed bytes + 00")] {
+                if h.matches(d) != (h == Hash::from_data(d)) { return Err(format!("Hash::matches disagrees with == Hash::from_data on element #{i} ({name})")) }
+                if let Some(wh) = wh { if wh.matches(d) != (*wh == Hash::from_data(d)) { return Err(format!("update hash .matches disagrees with == Hash::from_data on element #{i} ({name})")) } }
+            }
+            if !h.matches(gd) { return Err(format!("hash of the written object does not match the parsed object bytes of element #{i}")) }
+            if h.matches(&longer) { return Err(format!("hash of the written object matches a longer object at element #{i}")) }
+        }
+    }
+    Ok(())
+}
+
+/// Every accessor of a written and of a parsed element list must say what was put in.
+fn accessor_sweep(want: &[Seen], els: &[DeltaElement], what: &str) -> Result<(), String> {
+    let by_ref = seen_by_ref(els);
+    diff_seen(want, &by_ref).map_err(|e| format!("{what} uri()/hash()/data(): {e}"))?;
+    same_uri_text(want, &by_ref, what)?;
+    let by_unpack = seen_by_unpack(els.to_vec());
+    diff_seen(want, &by_unpack).map_err(|e| format!("{what} unpack(): {e}"))?;
+    same_uri_text(want, &by_unpack, what)?;
+    hash_matches_sweep(want, &by_ref)
+}
+
 fn roundtrip_snapshot(sess: Uuid, serial: u64, want: &[Seen], chunk: usize) -> Result<(), String> {
     let snap = Snapshot::new(sess, serial, want.iter().map(|s| match s {
         Seen::Publish { uri, data, .. } => PublishElement::new(uri.clone(), Bytes::copy_from_slice(data)),
@@ -597,6 +701,13 @@ fn roundtrip_snapshot(sess: Uuid, serial: u64, want: &[Seen], chunk: usize) -> R
     diff_seen(want, &c.seen)?;
     if back.session_id() != sess || back.serial() != serial { return Err(format!("parse() gives session {} serial {}", back.session_id(), back.serial())) }
     if back != snap { return Err("Snapshot::parse result is not `==` the written value".into()) }
+    // the same judgement through elements() / into_elements() and the element accessors
+    for (what, v) in [("written Snapshot", &snap), ("parsed Snapshot", &back)] {
+        let as_delta: Vec<DeltaElement> = v.elements().iter().cloned().map(DeltaElement::from).collect();
+        accessor_sweep(want, &as_delta, &format!("{what}.elements()"))?;
+        let owned: Vec<DeltaElement> = v.clone().into_elements().into_iter().map(DeltaElement::from).collect();
+        accessor_sweep(want, &owned, &format!("{what}.into_elements()"))?;
+    }
     Ok(())
 }
 
@@ -612,6 +723,10 @@ fn roundtrip_delta(sess: Uuid, serial: u64, els: &[ElSpec], chunk: usize) -> Res
     diff_seen(&want, &c.seen)?;
     if back.session_id() != sess || back.serial() != serial { return Err(format!("parse() gives session {} serial {}", back.session_id(), back.serial())) }
     if back != delta { return Err("Delta::parse result is not `==` the written value".into()) }
+    for (what, v) in [("written Delta", &delta), ("parsed Delta", &back)] {
+        accessor_sweep(&want, v.elements(), &format!("{what}.elements()"))?;
+        accessor_sweep(&want, &v.clone().into_elements(), &format!("{what}.into_elements()"))?;
+    }
     Ok(())
 }
 
@@ -1037,7 +1152,7 @@ struct Case { p: usize, ri: usize, bufcap: usize }
 fn space_hostile_endless(ctx: &Ctx) {
     let thorough = ctx.tier.is_thorough();
     let sp = ctx.space("hostile.endless",
-        "file type x document shape (full skeleton, self-closing root, root without children, self-closing children + PI and whitespace after the root and no XML declaration, start/end-tag pairs without whitespace) x insertion offset x run kind from a generator that never ends, read through counting reader + BufReader: no panic, and octets pulled <= start of the element containing the insertion + configured limit + BufReader capacity (generator capped at insertion + 4 x limit; reaching the cap is a violation). quick, full skeleton: under the 1 MB limit every offset x 3 kinds + all 24 kinds at the first offset of every grammar item, under the 100 MB limit 3 kinds at item-first offsets; quick, other shapes: item-first offsets x 24 kinds (1 MB) / x 2 kinds (100 MB). thorough, full skeleton: every offset x 24 kinds (1 MB, plus two more buffer sizes for 8 kinds) and every offset x 2 kinds + 8 kinds at item-first offsets (100 MB); thorough, other shapes: every offset x 24 kinds (1 MB) and every offset x 2 kinds + 4 kinds at item-first offsets (100 MB). non-trivial = cases the parser only left because the limit tripped (pulled >= limit)");
+        "file type x document shape (full skeleton, self-closing root, root without children, self-closing children + PI and whitespace after the root and no XML declaration, start/end-tag pairs without whitespace) x insertion offset x run kind from a generator that never ends, read through counting reader + BufReader: no panic, and octets pulled <= start of the element containing the insertion + configured limit + BufReader capacity (generator capped at insertion + 4 x limit; reaching the cap is a violation). quick, full skeleton: under the 1 MB limit every offset x 3 kinds + all 24 kinds at the first offset of every grammar item, under the 100 MB limit 2 kinds (+ white space at white-space items) at the first offset of every text / comment / end-tag item and of the first item of every in-tag class; quick, other shapes: item-first offsets x 24 kinds (1 MB), the same 100 MB selection x 2 kinds. thorough, full skeleton: every offset x 24 kinds (1 MB, plus two more buffer sizes for 8 kinds) and every offset x 2 kinds + 8 kinds at item-first offsets (100 MB); thorough, other shapes: every offset x 24 kinds (1 MB) and every offset x 2 kinds + 4 kinds at item-first offsets (100 MB). non-trivial = cases the parser only left because the limit tripped (pulled >= limit)");
     let blocks: Vec<Vec<u8>> = RUNS.iter().map(|r| block_of(r.unit)).collect();
     let mut bound: Vec<String> = Vec::new();
     let mut classes_seen: BTreeMap<&'static str, u64> = BTreeMap::new();
@@ -1045,25 +1160,35 @@ fn space_hostile_endless(ctx: &Ctx) {
     let mut max_peak = 0u64;
     let mut max_over: (i64, String) = (i64::MIN, String::new());
     let mut violated = 0u64;
+    // enumerate all streams of all shapes first, run them in one parallel sweep (longest first),
+    // then judge sequentially in enumeration order (deterministic output)
+    struct Plan { kind: Kind, shape: &'static str, doc: Vec<u8>, lay: DocLayout, first_case: usize, n_cases: usize }
+    let mut plans: Vec<Plan> = Vec::new();
+    let mut cases: Vec<(usize, Case)> = Vec::new();
+    let mut per_kind: BTreeMap<&'static str, (u64, u64, u64)> = BTreeMap::new();
     for kind in [Kind::Notification, Kind::Snapshot, Kind::Delta] {
-        let (mut n_light, mut n_heavy, mut n_offsets) = (0u64, 0u64, 0u64);
         for (shape, doc) in shapes(kind) {
-            let doc = &doc;
-            let lay = &layout(doc);
+            let lay = layout(&doc);
             let full = shape == "full";
             // bound 0, recorded as a fact: what the parser says to the unmodified shape
             let accepted = match guard(|| parse_as(kind, doc.as_slice())) { Ok(Ok(n)) => format!("accepted ({n} elements)"), Ok(Err(e)) => format!("rejected: {e}"), Err(p) => p };
             shape_facts.insert(format!("{}/{shape}", kind.name()), json!({"octets": doc.len(), "unmodified": accepted}));
             for p in 0..=doc.len() { *classes_seen.entry(lay.class[p]).or_insert(0) += 1 }
-            n_offsets += doc.len() as u64 + 1;
-            let mut cases: Vec<Case> = Vec::new();
+            let counts = per_kind.entry(kind.name()).or_insert((0, 0, 0));
+            counts.2 += doc.len() as u64 + 1;
+            let first_case = cases.len();
+            let pi = plans.len();
             let mut first_seen: BTreeMap<(&'static str, usize), ()> = BTreeMap::new();
+            let mut class_seen: BTreeMap<&'static str, ()> = BTreeMap::new();
             for p in 0..=doc.len() {
                 let first = first_seen.insert((lay.class[p], lay.item[p]), ()).is_none();
                 let light = kind == Kind::Notification || p <= lay.root_gt;
+                // quick, 100 MB region: in-tag classes once per shape, content classes at every item
+                let in_content = ["between-elements", "after-root", "element-whitespace", "base64-text", "in-comment", "in-end-tag"].contains(&lay.class[p]);
+                let first_q = first && (!light) && (class_seen.insert(lay.class[p], ()).is_none() || in_content);
                 let mut add = |ri: usize, bufcap: usize| {
-                    if limit_at(kind, lay, p, RUNS[ri].unit) == HEADER_LIMIT { n_light += 1 } else { n_heavy += 1 }
-                    cases.push(Case { p, ri, bufcap });
+                    if limit_at(kind, &lay, p, RUNS[ri].unit) == HEADER_LIMIT { counts.0 += 1 } else { counts.1 += 1 }
+                    cases.push((pi, Case { p, ri, bufcap }));
                 };
                 match (full, thorough, light) {
                     (true, true, true) => {
@@ -1075,49 +1200,69 @@ fn space_hostile_endless(ctx: &Ctx) {
                         if p % 8 == 0 { add(1, 64); add(6, 64) }
                     }
                     (true, true, false) => for ri in HEAVY_RUNS { if first || [0usize, 6].contains(&ri) { add(ri, 8192) } },
-                    (true, false, false) => if first { for ri in [0usize, 1, 6] { add(ri, 8192) } },
+                    (true, false, false) => if first_q {
+                        for ri in [0usize, 6] { add(ri, 8192) }
+                        if ["between-elements", "after-root", "element-whitespace"].contains(&lay.class[p]) { add(1, 8192) }
+                    },
                     (false, true, true) => for ri in 0..RUNS.len() { add(ri, 8192) },
                     (false, false, true) => if first { for ri in 0..RUNS.len() { add(ri, 8192) } },
                     (false, true, false) => for ri in [0usize, 1, 6, 7] { if first || [0usize, 6].contains(&ri) { add(ri, 8192) } },
-                    (false, false, false) => if first { for ri in [0usize, 6] { add(ri, 8192) } },
+                    (false, false, false) => if first_q { for ri in [0usize, 6] { add(ri, 8192) } },
                 }
             }
-            // run in parallel, judge sequentially in enumeration order (deterministic output)
-            let results: Vec<Hostile> = cases.par_iter().map(|c| {
-                let r = &RUNS[c.ri];
-                let limit = limit_at(kind, lay, c.p, r.unit);
-                run_hostile(kind, &doc[..c.p], r.head, &blocks[c.ri], u64::MAX, b"", c.bufcap, c.p as u64 + 4 * limit)
-            }).collect();
-            let mut oc: BTreeMap<&'static str, u64> = BTreeMap::new();
-            let mut nt = 0u64;
-            for (c, h) in cases.iter().zip(&results) {
-                let r = &RUNS[c.ri];
-                let (p, bufcap) = (c.p, c.bufcap);
-                let limit = limit_at(kind, lay, p, r.unit);
-                let bound = lay.start[p] as u64 + limit + bufcap as u64;
-                let wit = || format!("{}/{shape} pos={p} ({}) run={} endless bufcap={bufcap}", kind.name(), lay.class[p], r.name);
-                max_peak = max_peak.max(h.peak);
-                let over = h.pulled as i64 - (lay.start[p] as u64 + limit) as i64;
-                if over > max_over.0 { max_over = (over, wit()) }
-                let by_limit = h.pulled >= limit;
-                if by_limit { nt += 1 }
-                let class = match &h.result {
-                    Err(panic) => { violated += 1; ctx.fail("C09.hostile.nopanic", wit(), panic.clone()); "panic" }
-                    Ok(Ok(_)) => if by_limit { "ok-after-limit" } else { "ok-early" },
-                    Ok(Err(_)) => if by_limit { "error-at-limit" } else { "error-early" },
-                };
-                *oc.entry(class).or_insert(0) += 1;
-                if h.cap_hit || h.pulled > bound {
-                    violated += 1;
-                    ctx.fail("C09.hostile.bound", wit(), format!(
-                        "pulled {} octets{}; allowed: start of the element {} + limit {} + one buffer {} = {}; result {:?}",
-                        h.pulled, if h.cap_hit { " (generator cap of 4 x limit reached: the parse would not have stopped)" } else { "" },
-                        lay.start[p], limit, bufcap, bound, h.result.as_ref().map(|r| r.as_ref().map_err(|e| trunc(e, 80)))));
-                }
-            }
-            sp.evals(cases.len() as u64); sp.nontrivial(nt); sp.merge_outcomes(&oc);
+            let n_cases = cases.len() - first_case;
+            plans.push(Plan { kind, shape, doc, lay, first_case, n_cases });
         }
-        bound.push(format!("{}: 5 shapes, {n_offsets} offsets, {n_light} streams under the 1 MB limit, {n_heavy} under the 100 MB limit", kind.name()));
+    }
+    let mut order: Vec<usize> = (0..cases.len()).collect();
+    order.sort_by_key(|&i| { let (pi, c) = &cases[i]; std::cmp::Reverse(limit_at(plans[*pi].kind, &plans[*pi].lay, c.p, RUNS[c.ri].unit)) });
+    let ran: Vec<(usize, Hostile)> = order.par_iter().with_max_len(1).map(|&i| {
+        let (pi, c) = &cases[i];
+        let pl = &plans[*pi];
+        let r = &RUNS[c.ri];
+        let limit = limit_at(pl.kind, &pl.lay, c.p, r.unit);
+        (i, run_hostile(pl.kind, &pl.doc[..c.p], r.head, &blocks[c.ri], u64::MAX, b"", c.bufcap, c.p as u64 + 4 * limit))
+    }).collect();
+    let mut results: Vec<Option<Hostile>> = (0..cases.len()).map(|_| None).collect();
+    for (i, h) in ran { results[i] = Some(h) }
+    for pl in &plans {
+        let (kind, shape, lay) = (pl.kind, pl.shape, &pl.lay);
+        let mut oc: BTreeMap<&'static str, u64> = BTreeMap::new();
+        let mut nt = 0u64;
+        for ci in pl.first_case..pl.first_case + pl.n_cases {
+            let c = &cases[ci].1;
+            let h = results[ci].as_ref().expect("every stream was run");
+            let r = &RUNS[c.ri];
+            let (p, bufcap) = (c.p, c.bufcap);
+            let limit = limit_at(kind, lay, p, r.unit);
+            // a run containing '>' can complete the markup it is inserted in; what follows it
+            // then starts at the insertion point, not at the '<' of that markup
+            let start = if r.unit.contains(&b'>') { p as u64 } else { lay.start[p] as u64 };
+            let bound = start + limit + bufcap as u64;
+            let wit = || format!("{}/{shape} pos={p} ({}) run={} endless bufcap={bufcap}", kind.name(), lay.class[p], r.name);
+            max_peak = max_peak.max(h.peak);
+            let over = h.pulled as i64 - (start + limit) as i64;
+            if over > max_over.0 { max_over = (over, wit()) }
+            let by_limit = h.pulled >= limit;
+            if by_limit { nt += 1 }
+            let class = match &h.result {
+                Err(panic) => { violated += 1; ctx.fail("C09.hostile.nopanic", wit(), panic.clone()); "panic" }
+                Ok(Ok(_)) => if by_limit { "ok-after-limit" } else { "ok-early" },
+                Ok(Err(_)) => if by_limit { "error-at-limit" } else { "error-early" },
+            };
+            *oc.entry(class).or_insert(0) += 1;
+            if h.cap_hit || h.pulled > bound {
+                violated += 1;
+                ctx.fail("C09.hostile.bound", wit(), format!(
+                    "pulled {} octets{}; allowed: start of the element {} + limit {} + one buffer {} = {}; result {:?}",
+                    h.pulled, if h.cap_hit { " (generator cap of 4 x limit reached: the parse would not have stopped)" } else { "" },
+                    start, limit, bufcap, bound, h.result.as_ref().map(|r| r.as_ref().map_err(|e| trunc(e, 80)))));
+            }
+        }
+        sp.evals(pl.n_cases as u64); sp.nontrivial(nt); sp.merge_outcomes(&oc);
+    }
+    for (kname, (n_light, n_heavy, n_offsets)) in &per_kind {
+        bound.push(format!("{kname}: 5 shapes, {n_offsets} offsets, {n_light} streams under the 1 MB limit, {n_heavy} under the 100 MB limit"));
     }
     sp.outcomes_n("oracle-violated", violated);
     sp.set("shapes", json!(shape_facts));
@@ -1388,6 +1533,358 @@ fn space_hostile_pairs(ctx: &Ctx) {
         if stride == 1 { "all".to_string() } else { format!("every {stride}th") }, bound.join(", ")));
 }
 
+//============ generic XML reader / writer variants and base64 variants ======
+//
+// rrdp.rs drives the XML layer through start_with_limit,
+// take_opt_element_with_limit, ascii_into and take_opt_final_text. The
+// siblings take_element_with_limit, take_text_with_limit, into_ascii_bytes
+// and Name::qualified (at run time) are driven here through a small grammar
+// of their own, <r xmlns k><c a>text</c></r>, and judged against the
+// siblings (finite inputs) and against the same read bound (endless inputs).
+
+const MINI_NS: &[u8] = b"urn:c09";
+
+/// Driver over the operations rrdp.rs uses. Some((k, a, text)) if there is a child.
+fn mini_siblings<R: io::BufRead>(r: R, lim: [u64; 3]) -> Result<Option<(String, String, Option<String>)>, xd::Error> {
+    let mut reader = xd::Reader::new(r);
+    let root = xd::Name::from((MINI_NS, &b"r"[..]));
+    let child = xd::Name::from((MINI_NS, &b"c"[..]));
+    let mut k = None;
+    let mut outer = reader.start_with_limit(|el| {
+        if el.name() != root { return Err(xd::Error::Malformed) }
+        el.attributes(|name, value| match name {
+            b"k" => { k = Some(value.ascii_into::<String>()?); Ok(()) }
+            _ => Err(xd::Error::Malformed),
+        })
+    }, lim[0])?;
+    let k = k.ok_or(xd::Error::Malformed)?;
+    let mut a = None;
+    let inner = outer.take_opt_element_with_limit(&mut reader, |el| {
+        if el.name() != child { return Err(xd::Error::Malformed) }
+        el.attributes(|name, value| match name {
+            b"a" => { a = Some(value.ascii_into::<String>()?); Ok(()) }
+            _ => Err(xd::Error::Malformed),
+        })
+    }, lim[1])?;
+    let res = match inner {
+        None => None,
+        Some(mut inner) => {
+            let a = a.ok_or(xd::Error::Malformed)?;
+            let t = inner.take_opt_final_text(&mut reader, |t| match t {
+                Some(t) => Ok::<_, xd::Error>(Some(t.to_utf8()?.into_owned())),
+                None => Ok(None),
+            })?;
+            Some((k, a, t))
+        }
+    };
+    outer.take_end(&mut reader)?;
+    reader.end()?;
+    Ok(res)
+}
+
+/// Driver over the variants: exactly one child with text is required.
+fn mini_variants<R: io::BufRead>(r: R, lim: [u64; 3]) -> Result<(Bytes, Bytes, String), xd::Error> {
+    let mut reader = xd::Reader::new(r);
+    let (ns, r_local, c_local): (&[u8], &[u8], &[u8]) = (MINI_NS, b"r", b"c");
+    let root = xd::Name::qualified(ns, r_local);
+    let child = xd::Name::qualified(ns, c_local);
+    let mut k = None;
+    let mut outer = reader.start_with_limit(|el| {
+        if el.name() != root { return Err(xd::Error::Malformed) }
+        el.attributes(|name, value| match name {
+            b"k" => { k = Some(value.into_ascii_bytes()?); Ok(()) }
+            _ => Err(xd::Error::Malformed),
+        })
+    }, lim[0])?;
+    let k = k.ok_or(xd::Error::Malformed)?;
+    let mut a = None;
+    let mut inner = outer.take_element_with_limit(&mut reader, |el| {
+        if el.name() != child { return Err(xd::Error::Malformed) }
+        el.attributes(|name, value| match name {
+            b"a" => { a = Some(value.into_ascii_bytes()?); Ok(()) }
+            _ => Err(xd::Error::Malformed),
+        })
+    }, lim[1])?;
+    let a = a.ok_or(xd::Error::Malformed)?;
+    let t = inner.take_text_with_limit(&mut reader, |t| Ok::<_, xd::Error>(t.to_utf8()?.into_owned()), lim[2])?;
+    inner.take_end(&mut reader)?;
+    outer.take_end(&mut reader)?;
+    reader.end()?;
+    Ok((k, a, t))
+}
+
+fn mini_docs() -> Vec<(&'static str, Vec<u8>)> {
+    vec![
+        ("compact", b"<?xml version=\"1.0\"?><r xmlns=\"urn:c09\" k=\"v&amp;w\"><c a=\"1&lt;2\">te xt</c></r>".to_vec()),
+        ("spaced", b"<r xmlns=\"urn:c09\" k=\"x\">\n <!-- c -->\n <c a=\"y'z\">\n  dGV4dA==\n </c>\n</r>\n<!-- t -->\n".to_vec()),
+        ("empty-child", b"<r xmlns=\"urn:c09\" k=\"x\"><c a=\"y\"/></r>".to_vec()),
+        ("textless-child", b"<r xmlns=\"urn:c09\" k=\"x\"><c a=\"y\"></c></r>".to_vec()),
+        ("self-closing-root", b"<r xmlns=\"urn:c09\" k=\"x\"/>".to_vec()),
+        ("childless-root", b"<r xmlns=\"urn:c09\" k=\"x\"></r>".to_vec()),
+    ]
+}
+
+fn space_xml_variants(ctx: &Ctx) {
+    let sp = ctx.space("xml.reader_variants",
+        "own grammar <r xmlns k><c a>text</c></r> in 6 document shapes. (i) finite: every single-byte substitution (11 values) / truncation / deletion at every offset, parsed by a driver over take_element_with_limit + take_text_with_limit + into_ascii_bytes + Name::qualified and by a driver over the siblings rrdp.rs uses (take_opt_element_with_limit, take_opt_final_text, ascii_into, Name::from): the variant driver succeeds exactly when the sibling driver reports a child with text, with the same three values. (ii) endless: every offset of the two shapes with a text child x 24 run kinds x BufReader capacities {16, 64} through the variant driver with limits root 300 / child 1000 / text 600: no panic, octets pulled <= start of the item + limit in force + capacity. non-trivial = (i) mutants on which the sibling driver still finds a child with text, (ii) streams stopped by the limit");
+    let big = [u64::MAX / 4; 3];
+    let fails = Fails::new();
+    let docs = mini_docs();
+    // (i)
+    for (di, (dname, doc)) in docs.iter().enumerate() {
+        (0..=doc.len()).into_par_iter().for_each(|p| {
+            let mut oc: BTreeMap<&'static str, u64> = BTreeMap::new();
+            let mut inputs: Vec<(String, Vec<u8>)> = vec![(format!("{dname} truncated to {p}"), doc[..p].to_vec())];
+            if p < doc.len() {
+                for &b in &SUBST { if b != doc[p] { let mut m = doc.clone(); m[p] = b; inputs.push((format!("{dname} byte {p} := {b:#04x}"), m)) } }
+                let mut d = doc[..p].to_vec(); d.extend_from_slice(&doc[p + 1..]);
+                inputs.push((format!("{dname} byte {p} deleted"), d));
+            } else { inputs.push((format!("{dname} unmodified"), doc.clone())) }
+            let mut nt = 0u64;
+            for (ii, (wit, input)) in inputs.iter().enumerate() {
+                let order = ((di as u64) << 40) | ((p as u64) << 8) | ii as u64;
+                let sib = guard(|| mini_siblings(input.as_slice(), big).map_err(|e| e.to_string()));
+                let var = guard(|| mini_variants(input.as_slice(), big).map_err(|e| e.to_string()));
+                let (sib, var) = match (sib, var) {
+                    (Ok(s), Ok(v)) => (s, v),
+                    (s, v) => {
+                        *oc.entry("panic").or_insert(0) += 1;
+                        for r in [s.err(), v.err()].into_iter().flatten() { fails.push(order, "C09.hostile.nopanic", format!("xml mini grammar: {wit} ({})", hex(input)), r) }
+                        continue
+                    }
+                };
+                let want = match &sib { Ok(Some((k, a, Some(t)))) => Some((k.clone(), a.clone(), t.clone())), _ => None };
+                let got = var.as_ref().ok().map(|(k, a, t)| (String::from_utf8_lossy(k).into_owned(), String::from_utf8_lossy(a).into_owned(), t.clone()));
+                *oc.entry(match (&sib, want.is_some()) { (_, true) => "child-with-text", (Ok(_), false) => "accepted-without-text-child", (Err(_), _) => "rejected" }).or_insert(0) += 1;
+                if want.is_some() { nt += 1 }
+                if want != got {
+                    fails.push(order, "C09.xml.reader_variants", format!("{wit} ({})", hex(input)),
+                        format!("take_opt_element_with_limit/take_opt_final_text/ascii_into driver: {sib:?}; take_element_with_limit/take_text_with_limit/into_ascii_bytes driver: {var:?}"));
+                }
+            }
+            sp.evals(inputs.len() as u64); sp.nontrivial(nt); sp.merge_outcomes(&oc);
+        });
+    }
+    // (ii)
+    let lim = [300u64, 1000, 600];
+    let blocks: Vec<Vec<u8>> = RUNS.iter().map(|r| block_of(r.unit)).collect();
+    let mut cases: Vec<(usize, usize, usize, usize)> = Vec::new();
+    for di in 0..2 { for p in 0..=docs[di].1.len() { for ri in 0..RUNS.len() { for bufcap in [16usize, 64] { cases.push((di, p, ri, bufcap)) } } } }
+    let lays: Vec<DocLayout> = docs.iter().take(2).map(|d| layout(&d.1)).collect();
+    let child_gt: Vec<usize> = docs.iter().take(2).map(|d| { let c = find(&d.1, b"<c "); c + d.1[c..].iter().position(|b| *b == b'>').unwrap() }).collect();
+    let results: Vec<(u64, bool, Result<Result<(), String>, String>)> = cases.par_iter().map(|&(di, p, ri, bufcap)| {
+        let r = &RUNS[ri];
+        let doc = &docs[di].1;
+        let mut counting = Counting { inner: Gen { pre: &doc[..p], head: r.head, block: &blocks[ri], run_len: u64::MAX, suf: b"", pos: 0, cap: p as u64 + 8000, cap_hit: false }, pulled: 0 };
+        let res = guard(|| mini_variants(BufReader::with_capacity(bufcap, &mut counting), lim).map(|_| ()).map_err(|e| e.to_string()));
+        (counting.pulled, counting.inner.cap_hit, res)
+    }).collect();
+    let mut oc: BTreeMap<&'static str, u64> = BTreeMap::new();
+    let (mut nt, mut violated) = (0u64, 0u64);
+    for (&(di, p, ri, bufcap), (pulled, cap_hit, res)) in cases.iter().zip(&results) {
+        let r = &RUNS[ri];
+        let lay = &lays[di];
+        // limit in force: root header up to the root tag's '>', child limit up to the child tag's '>',
+        // text limit afterwards; a run containing '>' can complete the tag it is in, so the largest applies
+        let region = if p <= lay.root_gt { lim[0] } else if p <= child_gt[di] { lim[1] } else { lim[2] };
+        let limit = if r.unit.contains(&b'>') { lim[1] } else { region };
+        let start = if r.unit.contains(&b'>') { p as u64 } else { lay.start[p] as u64 };
+        let bound = start + limit + bufcap as u64;
+        let wit = || format!("xml mini grammar {} pos={p} ({}) run={} endless bufcap={bufcap}", docs[di].0, lay.class[p], r.name);
+        let by_limit = *pulled >= region;
+        if by_limit { nt += 1 }
+        *oc.entry(match res { Err(_) => "panic", Ok(Ok(())) => "accepted", Ok(Err(_)) => if by_limit { "error-at-limit" } else { "error-early" } }).or_insert(0) += 1;
+        if let Err(panic) = res { violated += 1; ctx.fail("C09.hostile.nopanic", wit(), panic.clone()) }
+        if *cap_hit || *pulled > bound {
+            violated += 1;
+            ctx.fail("C09.hostile.bound", wit(), format!("pulled {pulled} octets{}; allowed: start of the item {} + limit {limit} + one buffer {bufcap} = {bound}",
+                if *cap_hit { " (generator cap reached: the parse would not have stopped)" } else { "" }, start));
+        }
+    }
+    sp.evals(cases.len() as u64); sp.nontrivial(nt); sp.merge_outcomes(&oc);
+    sp.outcomes_n("oracle-violated", violated);
+    fails.flush_into(ctx, &sp);
+    sp.sample_str(|| String::from_utf8_lossy(&docs[0].1).into_owned());
+    sp.sample_str(|| String::from_utf8_lossy(&docs[1].1).into_owned());
+    sp.done(true, &format!("6 shapes x every offset x 13 deviations; 2 shapes x every offset x 24 run kinds x 2 buffer sizes ({} streams)", cases.len()));
+}
+
+/// Writes <r xmlns k><c a>pcdata(t)</c></r> through the generic writer.
+fn write_mini<W: io::Write>(w: &mut xe::Writer<W>, k: &str, a: &str, t: &str) -> io::Result<()> {
+    w.element(xd::Name::unqualified(b"r"))?
+        .attr("xmlns", "urn:c09")?
+        .attr("k", k)?
+        .content(|c| {
+            c.element(xd::Name::unqualified(b"c"))?.attr("a", a)?.content(|c| c.pcdata(t))?;
+            Ok(())
+        })?;
+    Ok(())
+}
+
+/// Independent reading of the mini document with quick-xml alone:
+/// (k, a, text with entity and character references resolved).
+fn read_mini_qx(doc: &[u8]) -> Result<(String, String, String), String> {
+    use quick_xml::events::Event;
+    let mut rd = quick_xml::Reader::from_reader(doc);
+    let (mut k, mut a, mut text, mut depth) = (None, None, String::new(), 0usize);
+    loop {
+        match rd.read_event().map_err(|e| e.to_string())? {
+            ev @ (Event::Start(_) | Event::Empty(_)) => {
+                let (e, opens) = match &ev { Event::Start(e) => (e, true), Event::Empty(e) => (e, false), _ => unreachable!() };
+                if opens { depth += 1 }
+                for at in e.attributes() {
+                    let at = at.map_err(|e| e.to_string())?;
+                    let v = at.unescape_value().map_err(|e| e.to_string())?.into_owned();
+                    match at.key.as_ref() { b"k" => k = Some(v), b"a" => a = Some(v), _ => {} }
+                }
+            }
+            Event::End(_) => depth = depth.checked_sub(1).ok_or("unbalanced end tag")?,
+            Event::Text(t) => { let t = t.decode().map_err(|e| e.to_string())?; if depth == 2 { text.push_str(&t) } else if !t.trim().is_empty() { return Err(format!("text outside <c>: {t:?}")) } }
+            Event::GeneralRef(r) => {
+                if depth != 2 { return Err("reference outside <c>".into()) }
+                match r.resolve_char_ref().map_err(|e| e.to_string())? {
+                    Some(ch) => text.push(ch),
+                    None => {
+                        let name = r.decode().map_err(|e| e.to_string())?;
+                        text.push_str(quick_xml::escape::resolve_predefined_entity(&name).ok_or_else(|| format!("unknown entity &{name};"))?)
+                    }
+                }
+            }
+            Event::Eof => break,
+            other => return Err(format!("unexpected event {other:?}")),
+        }
+    }
+    if depth != 0 { return Err("unclosed element".into()) }
+    Ok((k.ok_or("no k")?, a.ok_or("no a")?, text))
+}
+
+/// Fails every write once `budget` octets have been accepted.
+struct FailingWriter { budget: usize, written: Vec<u8> }
+impl io::Write for FailingWriter {
+    fn write(&mut self, buf: &[u8]) -> io::Result<usize> {
+        if self.budget == 0 { return Err(io::Error::other("writer full")) }
+        let n = buf.len().min(self.budget);
+        self.budget -= n;
+        self.written.extend_from_slice(&buf[..n]);
+        Ok(n)
+    }
+    fn flush(&mut self) -> io::Result<()> { Ok(()) }
+}
+
+fn space_xml_writer(ctx: &Ctx) {
+    let max_len: u32 = ctx.tier.pick(3, 4);
+    let sp = ctx.space("xml.writer_variants",
+        "own document <r xmlns k><c a>pcdata</c></r> written through xml::encode::Writer for every string of length 0..N over {a < > & \" ' ; # SP} used as attribute value and as PCDATA: (1) pcdata and attr must both read back (quick-xml alone, references resolved) as the string that was put in (PCDATA up to the indentation white space the writer adds); (2) set_indent(\"  \") gives the default output octet for octet and set_indent(\"\\t\"), (\"\"), (\"    \") change nothing but white space: same values read back; (3) Writer::new(Vec).into_wrapped() returns exactly the octets that Writer::new(&mut Vec) + done() wrote, and for a writer failing after every possible number of octets into_wrapped() fails exactly when done() does; non-trivial = strings containing a character that must be escaped");
+    let alphabet: [char; 9] = ['a', '<', '>', '&', '"', '\'', ';', '#', ' '];
+    let k = alphabet.len() as u64;
+    let fails = Fails::new();
+    par_for(seq_count(k, max_len), |idx| {
+        let mut ix = Vec::new();
+        seq_at(k, max_len, idx, &mut ix);
+        let t: String = ix.iter().map(|&i| alphabet[i]).collect();
+        let escapes = t.contains(['<', '>', '&', '"', '\'']);
+        sp.eval();
+        if escapes { sp.nontrivial(1); sp.outcome("needs-escaping") } else { sp.outcome("plain") }
+        fails.check(idx, "C09.xml.writer_variants", || format!("text={t:?}"), || {
+            // default: &mut Vec + done()
+            let mut base = Vec::new();
+            { let mut w = xe::Writer::new(&mut base); write_mini(&mut w, "kv", &t, &t).map_err(|e| e.to_string())?; w.done().map_err(|e| e.to_string())?; }
+            let (rk, ra, rt) = read_mini_qx(&base).map_err(|e| format!("written document is not readable: {e}; {}", String::from_utf8_lossy(&base)))?;
+            if rk != "kv" || ra != t { return Err(format!("attr({t:?}) reads back as {ra:?}; {}", String::from_utf8_lossy(&base))) }
+            if rt.trim_matches(['\n', ' ', '\t']) != t.trim_matches(' ') { return Err(format!("pcdata({t:?}) reads back as {rt:?}; {}", String::from_utf8_lossy(&base))) }
+            // into_wrapped
+            let mut w = xe::Writer::new(Vec::new());
+            write_mini(&mut w, "kv", &t, &t).map_err(|e| e.to_string())?;
+            let owned = w.into_wrapped().map_err(|e| format!("into_wrapped failed: {e}"))?;
+            if owned != base { return Err(format!("into_wrapped() returned {:?}, done() path wrote {:?}", String::from_utf8_lossy(&owned), String::from_utf8_lossy(&base))) }
+            // set_indent
+            for indent in ["  ", "\t", "", "    "] {
+                let mut w = xe::Writer::new(Vec::new());
+                w.set_indent(indent);
+                write_mini(&mut w, "kv", &t, &t).map_err(|e| e.to_string())?;
+                let out = w.into_wrapped().map_err(|e| e.to_string())?;
+                if indent == "  " && out != base { return Err("set_indent(\"  \") differs from the default output".into()) }
+                let (ik, ia, it) = read_mini_qx(&out).map_err(|e| format!("set_indent({indent:?}) output not readable: {e}"))?;
+                if (ik.as_str(), ia.as_str(), it.trim_matches(['\n', ' ', '\t'])) != (rk.as_str(), ra.as_str(), rt.trim_matches(['\n', ' ', '\t'])) { return Err(format!("set_indent({indent:?}) changes the content: {:?}", String::from_utf8_lossy(&out))) }
+                let strip = |v: &[u8]| v.iter().copied().filter(|b| !b" \t\n".contains(b)).collect::<Vec<u8>>();
+                if strip(&out) != strip(&base) { return Err(format!("set_indent({indent:?}) changes more than white space")) }
+            }
+            // failing writer: done() and into_wrapped() agree at every cut
+            if idx % 8 == 0 {
+                for budget in 0..=base.len() {
+                    let run = |finish_wrapped: bool| -> bool {
+                        let mut w = xe::Writer::new(FailingWriter { budget, written: Vec::new() });
+                        let r = write_mini(&mut w, "kv", &t, &t);
+                        let f = if finish_wrapped { w.into_wrapped().map(|_| ()) } else { w.done() };
+                        r.is_ok() && f.is_ok()
+                    };
+                    let (d, i) = (run(false), run(true));
+                    if d != i { return Err(format!("writer failing after {budget} octets: done() path ok={d}, into_wrapped() path ok={i}")) }
+                    if d != (budget >= base.len()) { return Err(format!("writer failing after {budget} of {} octets reported ok={d}", base.len())) }
+                }
+            }
+            Ok(())
+        });
+    });
+    fails.flush_into(ctx, &sp);
+    sp.sample_str(|| guard(|| { let mut w = xe::Writer::new(Vec::new()); let _ = write_mini(&mut w, "kv", "a<'&", "a<'&"); String::from_utf8_lossy(&w.into_wrapped().unwrap_or_default()).into_owned() }).unwrap_or_else(|p| p));
+    sp.done(true, &format!("all strings of length <= {max_len} over 9 characters; failing-writer sweep on every 8th string"));
+}
+
+fn space_base64(ctx: &Ctx) {
+    use rpki::util::base64 as b64;
+    let sp = ctx.space("base64.variants",
+        "every object content of the round-trip alphabet (58 length/fill combinations) x white-space layout of its base64 text {none, after every 1/3/4/5/64/76 characters, leading+trailing}: Xml.decode, Xml.decode_bytes and read_to_end / 1-, 2-, 3-, 5-octet reads of Xml.decode_reader agree with each other and give the content back; Slurm.write_encoded_slice == Slurm.encode == Slurm.display and Slurm.decode / decode_slice give the content back; non-trivial = non-empty contents");
+    let layouts: [usize; 8] = [0, 1, 3, 4, 5, 64, 76, usize::MAX];
+    let data = data_full();
+    let fails = Fails::new();
+    data.par_iter().enumerate().for_each(|(di, d)| {
+        let bytes = d.bytes();
+        for (li, &every) in layouts.iter().enumerate() {
+            sp.eval();
+            if d.len > 0 { sp.nontrivial(1) }
+            sp.outcome(if every == 0 { "no-white-space" } else { "white-space" });
+            fails.check((di * 8 + li) as u64, "C09.base64.variants", || format!("content={} white-space-every={every}", d.show()), || {
+                let plain = b64::Xml.encode(&bytes);
+                let text: String = match every {
+                    0 => plain.clone(),
+                    usize::MAX => format!("\n\t  {plain} \r\n"),
+                    n => plain.as_bytes().chunks(n).map(|c| std::str::from_utf8(c).unwrap()).collect::<Vec<_>>().join(if n % 2 == 0 { "\n    " } else { " " }),
+                };
+                let whole = b64::Xml.decode(&text).map_err(|e| format!("Xml.decode: {e}"))?;
+                if whole != bytes.as_ref() { return Err(format!("Xml.decode gives {} octets {}", whole.len(), trunc(&hex(&whole), 64))) }
+                let from_bytes = b64::Xml.decode_bytes(text.as_bytes()).map_err(|e| format!("Xml.decode_bytes: {e}"))?;
+                if from_bytes != whole { return Err("Xml.decode_bytes differs from Xml.decode".into()) }
+                for chunk in [0usize, 1, 2, 3, 5] {
+                    let mut rd = b64::Xml.decode_reader(&text);
+                    let mut out = Vec::new();
+                    if chunk == 0 { rd.read_to_end(&mut out).map_err(|e| format!("decode_reader: {e}"))?; } else {
+                        let mut buf = vec![0u8; chunk];
+                        loop { let n = rd.read(&mut buf).map_err(|e| format!("decode_reader: {e}"))?; if n == 0 { break } out.extend_from_slice(&buf[..n]) }
+                    }
+                    if out != whole { return Err(format!("decode_reader read in chunks of {chunk} gives {} octets, Xml.decode {}", out.len(), whole.len())) }
+                }
+                if every == 0 {
+                    let enc = b64::Slurm.encode(&bytes);
+                    let mut w = Vec::new();
+                    b64::Slurm.write_encoded_slice(&bytes, &mut w).map_err(|e| e.to_string())?;
+                    if w != enc.as_bytes() { return Err(format!("Slurm.write_encoded_slice wrote {:?}, Slurm.encode gives {enc:?}", trunc(&String::from_utf8_lossy(&w), 80))) }
+                    if b64::Slurm.display(&bytes).to_string() != enc { return Err("Slurm.display differs from Slurm.encode".into()) }
+                    let back = b64::Slurm.decode(&enc).map_err(|e| format!("Slurm.decode: {e}"))?;
+                    if back != bytes.as_ref() { return Err("Slurm.decode(Slurm.encode(x)) != x".into()) }
+                    let mut slice = vec![0u8; bytes.len() + 3];
+                    let n = b64::Slurm.decode_slice(&enc, &mut slice).map_err(|e| format!("Slurm.decode_slice: {e}"))?;
+                    if slice[..n] != back[..] { return Err("Slurm.decode_slice differs from Slurm.decode".into()) }
+                }
+                Ok(())
+            });
+        }
+    });
+    fails.flush_into(ctx, &sp);
+    sp.sample_str(|| "content=4xmix white-space-every=3".into());
+    sp.done(true, &format!("{} contents x {} layouts", data.len(), layouts.len()));
+}
+
 fn main() {
     let ctx = Ctx::new("C09", "fault_enumeration");
     ctx.assume("quick-xml, base64 and uuid are trusted to implement XML tokenising, base64 and UUID text; the check observes the library's use of them");
@@ -1398,11 +1895,12 @@ fn main() {
     // C09_ONLY=<comma list> is a development aid; a partial run is never a verdict.
     let only = std::env::var("C09_ONLY").ok();
     if only.is_some() { ctx.machinery_error("C09_ONLY is set: partial run") }
-    let spaces: [(&str, fn(&Ctx)); 10] = [
+    let spaces: [(&str, fn(&Ctx)); 13] = [
         ("deltas", space_deltas), ("origins", space_origins),
         ("rt_notification", space_rt_notification), ("rt_snapshot", space_rt_snapshot), ("rt_delta", space_rt_delta),
         ("short", space_hostile_short), ("pairs", space_hostile_pairs), ("mutations", space_hostile_mutations),
         ("bombs", space_hostile_bombs), ("endless", space_hostile_endless),
+        ("xml_variants", space_xml_variants), ("xml_writer", space_xml_writer), ("base64", space_base64),
     ];
     // The value spaces build their inputs from fixed URI alphabets. If the library under
     // test refuses one of these protocol-valid URIs, that is reported as a violation
